@@ -29,6 +29,8 @@ type MutCase struct {
 	Effect  string   `json:"effect"`
 	Scope   string   `json:"scope"` // tbs: inside the TBSCertificate (both entries), cert: outer certificate only
 	Part    string   `json:"part"`  // class of this case as a part of a concatenation ("" = not usable)
+	Ord     []string `json:"ord"`   // the order the extensions stand in (components of the specification)
+	Uce     []string `json:"uce"`   // unmutated case: the unhandled critical extensions the object must report
 }
 
 // Group is one template with its applicable mutations.
@@ -151,9 +153,17 @@ func (p *pools) add(class string, b []byte) {
 }
 
 // checkWellFormed: an unmutated certificate parses with no error at all and with the standard library's field values.
-func checkWellFormed(k *Checker, is *Issued, s *slot) {
+// order is nil for the encoder's own order; otherwise the order the extensions were put in (fingerprints of the
+// two differ, the law is the same).  uce, when not nil, is the specification's set of unhandled critical extensions.
+func checkWellFormed(k *Checker, is *Issued, s *slot, order, uce []string, checkUce bool) {
 	pc, pt := EntryByName("ParseCertificate"), EntryByName("ParseTBSCertificate")
 	want := StdFields(is.Std)
+	tag := ""
+	extra := func() map[string]any { return map[string]any{"template": is.T, "kind": "wellformed"} }
+	if order != nil {
+		tag = "-order"
+		extra = func() map[string]any { return map[string]any{"template": is.T, "kind": "wellformed", "order": order} }
+	}
 	for _, e := range []*Entry{pc, pt} {
 		in := is.DER
 		var skip map[string]bool
@@ -163,11 +173,11 @@ func checkWellFormed(k *Checker, is *Issued, s *slot) {
 		}
 		o := k.Laws(e, in, s)
 		cls := o.Class()
-		k.Rep.Eval("wellformed/" + e.Name + "/" + cls + "/" + is.T.Name + "/" + is.T.Key + "/" + is.T.Validity)
+		k.Rep.Eval("wellformed" + tag + "/" + e.Name + "/" + cls + "/" + is.T.Name + "/" + is.T.Key + "/" + is.T.Validity)
 		if cls != ClsOK {
 			if cls == ClsNonFatal || cls == ClsFatal {
-				k.violate("wellformed:"+e.Name+":"+cls+":"+errKind(o.Err), fmt.Sprintf("a well-formed certificate issued by the standard library (template %s) is parsed by %s with error %v", is.T.ID(), e.Name, o.Err),
-					e.Name, in, map[string]any{"template": is.T, "kind": "wellformed"})
+				k.violate("wellformed"+tag+":"+e.Name+":"+cls+":"+errKind(o.Err), fmt.Sprintf("a well-formed certificate issued by the standard library (template %s, extensions in the order %v) is parsed by %s with error %v", is.T.ID(), order, e.Name, o.Err),
+					e.Name, in, extra())
 			}
 			continue
 		}
@@ -176,8 +186,22 @@ func checkWellFormed(k *Checker, is *Issued, s *slot) {
 			k.Rep.Add("D1_ct_eku_cases", 1)
 		}
 		if d := DiffFields(want, got, skip); len(d) > 0 {
-			k.violate("exact:"+e.Name+":"+d[0], fmt.Sprintf("%s reports %s = %v, the standard library reports %v for the same bytes (template %s; all differing fields: %v)",
-				e.Name, d[0], got[d[0]], want[d[0]], is.T.ID(), d), e.Name, in, map[string]any{"template": is.T, "kind": "wellformed"})
+			k.violate("exact"+tag+":"+e.Name+":"+d[0], fmt.Sprintf("%s reports %s = %v, the standard library reports %v for the same bytes (template %s, extensions in the order %v; all differing fields: %v)",
+				e.Name, d[0], got[d[0]], want[d[0]], is.T.ID(), order, d), e.Name, in, extra())
+		}
+		if checkUce {
+			// the model's own expectation (UnhandledIsOrderFree): exactly the uninterpreted extensions marked critical
+			var gotU []string
+			for _, id := range o.Obj.(*ctx509.Certificate).UnhandledCriticalExtensions {
+				gotU = append(gotU, kindOfDotted(id.String()))
+			}
+			sort.Strings(gotU)
+			wantU := append([]string{}, uce...)
+			sort.Strings(wantU)
+			if strings.Join(gotU, ",") != strings.Join(wantU, ",") {
+				k.violate("uce"+tag+":"+e.Name, fmt.Sprintf("%s reports the unhandled critical extensions %v, the specification gives %v (template %s, extensions in the order %v)",
+					e.Name, gotU, wantU, is.T.ID(), order), e.Name, in, extra())
+			}
 		}
 		if e == pt && got["Raw"] != want["RawTBSCertificate"] {
 			k.violate("exact:ParseTBSCertificate:Raw", "Raw of a parsed TBSCertificate is not the TBSCertificate", e.Name, in, nil)
@@ -263,23 +287,66 @@ func TestReplay(t *testing.T) {
 			infra.Store(fmt.Errorf("template %s produced %d extensions, expected %d", g.Tpl.ID(), n, len(want)))
 			return
 		}
+		// the order dimension: the extensions of the issued certificate permuted as the case says
+		encKinds, err := ExtKindsOf(is.DER)
+		if err != nil {
+			infra.Store(err)
+			return
+		}
+		byOrder := map[string]*Issued{orderKey(encKinds): is}
+		inOrder := func(ord []string) (*Issued, bool, error) {
+			key := orderKey(ord)
+			if x := byOrder[key]; x != nil {
+				return x, x == is, nil
+			}
+			b, err := Reorder(is.DER, ord)
+			if err != nil {
+				return nil, false, err
+			}
+			std, err := x509.ParseCertificate(b)
+			if err != nil {
+				return nil, false, fmt.Errorf("the standard library rejects its own certificate with the extensions in the order %v: %v", ord, err)
+			}
+			x := &Issued{T: is.T, DER: b, Std: std}
+			byOrder[key] = x
+			return x, false, nil
+		}
+		sawEnc := false
 		for _, m := range g.Muts {
 			ncases.Add(1)
+			base, isEnc, err := inOrder(m.Ord)
+			if err != nil {
+				infra.Store(fmt.Errorf("template %s: %v", g.Tpl.ID(), err))
+				return
+			}
 			if m.Name == "none" {
-				checkWellFormed(k, is, s)
+				var ord []string
+				if !isEnc {
+					ord = m.Ord
+					rep.Add("wellformed_orders_other_than_the_encoders", 1)
+				} else {
+					sawEnc = true
+				}
+				checkWellFormed(k, base, s, ord, m.Uce, true)
 				if !allowed(m.Allowed, ClsOK) || len(m.Allowed) != 1 {
 					infra.Store(fmt.Errorf("specification does not require <<obj, nil>> for an unmutated template"))
 				}
-				pl.add("ok", is.DER)
+				if isEnc {
+					pl.add("ok", is.DER)
+				}
 				continue
+			}
+			sfx := ""
+			if !isEnc {
+				sfx = ":reordered"
 			}
 			for _, bare := range []bool{false, true} {
 				if bare && m.Scope != "tbs" {
 					continue
 				}
-				e, in := pc, is.DER
+				e, in := pc, base.DER
 				if bare {
-					e, in = pt, is.Std.RawTBSCertificate
+					e, in = pt, base.Std.RawTBSCertificate
 				}
 				b, err := Mutate(m.Name, in, bare, r)
 				if err != nil {
@@ -288,20 +355,24 @@ func TestReplay(t *testing.T) {
 				}
 				o := k.Laws(e, b, s)
 				cls := o.Class()
-				rep.Eval(m.Name + "/" + e.Name + "/" + cls)
+				rep.Eval(m.Name + "/" + e.Name + "/" + cls + sfx)
 				if o.Panic == nil && !strings.HasPrefix(cls, "mixed") && !allowed(m.Allowed, cls) {
-					k.violate(fmt.Sprintf("class:%s:%s:want=%s:got=%s", m.Name, e.Name, strings.Join(m.Allowed, "|"), cls),
-						fmt.Sprintf("mutation %s (stage %s, effect %s) of template %s: the contract allows %v, %s returns %s (error: %v)", m.Name, m.Stage, m.Effect, g.Tpl.ID(), m.Allowed, e.Name, cls, o.Err),
+					k.violate(fmt.Sprintf("class:%s:%s:want=%s:got=%s%s", m.Name, e.Name, strings.Join(m.Allowed, "|"), cls, sfx),
+						fmt.Sprintf("mutation %s (stage %s, effect %s) of template %s (extensions in the order %v): the contract allows %v, %s returns %s (error: %v)", m.Name, m.Stage, m.Effect, g.Tpl.ID(), m.Ord, m.Allowed, e.Name, cls, o.Err),
 						e.Name, b, map[string]any{"template": g.Tpl, "mutation": m, "kind": "class"})
 				}
 				if !bare {
 					// the list entry point on the same bytes (n = 1 of the concatenation law, both directions)
 					k.Laws(pcs, b, s)
-					if m.Part != "" && len(m.Allowed) == 1 && allowed(m.Allowed, cls) {
+					if isEnc && m.Part != "" && len(m.Allowed) == 1 && allowed(m.Allowed, cls) {
 						pl.add(m.Part, b)
 					}
 				}
 			}
+		}
+		if !sawEnc {
+			infra.Store(fmt.Errorf("template %s: none of the specification's orders is the one the standard library's encoder emits (%v)", g.Tpl.ID(), encKinds))
+			return
 		}
 		if i < 3 {
 			rep.Sample(map[string]any{"template": g.Tpl, "mutations": len(g.Muts), "der_len": len(is.DER)})
@@ -492,6 +563,8 @@ func TestReplayOne(t *testing.T) {
 			Kind     string   `json:"kind"`
 			Mutation *MutCase `json:"mutation"`
 			Template Template `json:"template"`
+			Walk     *HWalk   `json:"walk"`       // kind history: the history up to the failing call
+			Before   string   `json:"before_hex"` // kind purity: the input parsed before this one
 		} `json:"replay"`
 	}
 	if err := json.Unmarshal(raw, &rp); err != nil {
@@ -518,6 +591,23 @@ func TestReplayOne(t *testing.T) {
 		o := k.Laws(e, in, sl.s[0])
 		rep.Eval(e.Name + "/" + o.Class())
 		switch rp.Replay.Kind {
+		case "history":
+			if rp.Replay.Walk == nil {
+				return
+			}
+			w, err := BuildWorld(k, []HWalk{*rp.Replay.Walk})
+			if err != nil {
+				t.Error(err)
+				return
+			}
+			NewHRunner(k, w, sl.s[0]).Walk(*rp.Replay.Walk)
+		case "purity":
+			before, err := hex.DecodeString(rp.Replay.Before)
+			if err != nil {
+				t.Error(err)
+				return
+			}
+			k.Purity(PurityFamily{Kind: "replay", Entries: []string{e.Name}, Inputs: [][]byte{before, in}}, rand.New(rand.NewSource(1)), 4, sl.s[0])
 		case "class":
 			if m := rp.Replay.Mutation; m != nil && !allowed(m.Allowed, o.Class()) {
 				k.violate(fmt.Sprintf("class:%s:%s:want=%s:got=%s", m.Name, e.Name, strings.Join(m.Allowed, "|"), o.Class()), "outcome class outside the allowed set", e.Name, in, nil)
